@@ -87,6 +87,12 @@ theorem rebuild_eq_fresh (w : World File Content Mod Sett Out) (s : State File C
   rw [view_of_inv w s h, view_of_inv w (fresh s.disk) (inv_fresh w s.disk)]
   rfl
 
+/-- **repeated rebuilds agree**: a rebuild straight after a rebuild, under the same settings and with no update in between,
+outputs the same — what the first one cached does not change the answer (the "repeated runs" clause of C10 for a session) -/
+theorem rebuild_twice (w : World File Content Mod Sett Out) (s : State File Content Mod) (σ : Sett) (h : Inv w s) :
+    (rebuild w (rebuild w s σ).1 σ).2 = (rebuild w s σ).2 := by
+  rw [rebuild_eq_fresh w (rebuild w s σ).1 σ (inv_rebuild w s σ h), disk_rebuild, ← rebuild_eq_fresh w s σ h]
+
 /-- the outputs a history produces, paired with the disk at the time of each rebuild -/
 def disksAtRebuilds (w : World File Content Mod Sett Out) : State File Content Mod → List (Op File Content Sett) → List (Sett × (File → Option Content))
   | _, [] => []
